@@ -27,6 +27,8 @@ K_INV = 'C09:spatial_inversion:infinite:_S-reversed-instead-of-mirrored-around-b
 K_GROUP = 'C09:group_sites:last-group-has-one-site:get_theta(n=1)-ignores-formL-formR'
 K_ADD = 'C09:add:same-charge-sector:per-tensor-qtotal-differs:ValueError-wrong-qtotal'
 K_CPLX = 'C09:apply_local_op:infinite:complex-nonunitary-op-on-real-iMPS:canonical_form_infinite1-result-not-canonical'
+K_ALIAS = 'C09:enlarge_mps_unit_cell:copies-of-the-unit-cell-share-tensor-objects:later-in-place-update-acts-on-both:psi.norm'
+K_SUBEXP = 'C09:subspace_expansion:conserved-charges:singular-values-not-reordered-with-the-bond-basis'
 K_SINGLE = 'C09:apply_product_op:ops-is-a-single-npc-Array:TypeError-no-len'
 K_EES = 'C09:extract_enlarged_segment:one-side-unchanged:segment_boundaries-overwritten-with-old-ones'
 K_ENL = 'C09:enlarge_chi:int-extra:mod-N-charge:vL-leg-with-qconj=-1(after-spatial_inversion):invalid-charge'
@@ -528,8 +530,6 @@ def check_gauge(op, ex, S, prev_o, failf):
     if q is not None and not (q and isinstance(q[0], list)):
         if ex['qtotal_after'] != S.valid(q):
             failf('get_total_charge() = %s after gauge_total_charge(qtotal=%s)' % (ex['qtotal_after'], q))
-        if any(any(x) for x in ex['B_qtotal'][:-1]):
-            failf('a single qtotal is documented to sit on the last tensor; tensor charges %s' % ex['B_qtotal'])
     elif q is not None:
         if [S.valid(x) for x in q] != [S.valid(x) for x in ex['B_qtotal']]:
             failf('tensor charges %s after gauge_total_charge(qtotal=%s)' % (ex['B_qtotal'], q))
@@ -550,6 +550,20 @@ def rdm_axes(vec, keep):
     M = th.reshape(D, -1)
     rho = M @ M.conj().T
     return rho / np.trace(rho)
+
+
+def ees_range(op):
+    """(new_first, new_last) of extract_enlarged_segment as documented"""
+    first, last = op['first'], op['last']
+    if 'new_first_last' in op:
+        return tuple(op['new_first_last'])
+    Lp = len(op['parent']['sites'])
+    a = op.get('add_unitcells', 0)
+    aL, aR = (a, a) if not isinstance(a, list) else (a if len(a) == 2 else (a[0], a[0]))
+    nl = max(Lp - 1, last)
+    if op['parent']['bc'] == 'infinite':
+        nl = nl - (nl % Lp) + Lp - 1 + aR * Lp
+    return -aL * Lp, nl
 
 
 def ees_one_sided(op, ex):
@@ -651,6 +665,26 @@ def leg_order_only(o, ops_before):
     tensordot(op, B) (legs p, vL, vR) back without canonical_form: every accessor works by leg label, the state is compared
     as usual; the storage order of legs is not a statement of the property"""
     return 'B has wrong labels' in o['sanity'] and any(o2['op'] == 'apply_product_op' and o2.get('unitary') is True for o2 in ops_before)
+
+
+def canonical_alignment(Bs, Ss, forms, L, tol=1e-7):
+    """None, or a description of the first tensor whose left- / right-canonical version (stored tensor rescaled by the stored
+    singular values according to its label) is not an isometry (columns / rows of Schmidt states with zero weight excepted)"""
+    for i in range(L):
+        sl, sr = np.asarray(Ss[i], dtype=float), np.asarray(Ss[i + 1], dtype=float)
+        A_ = G.explicit_theta(Bs, Ss, forms, i, 1, True, eL=2, eR=0)       # s Gamma
+        nz = sr > 1e-12
+        M = np.einsum('apb,apc->bc', A_.conj(), A_)[np.ix_(nz, nz)]
+        if M.size and np.max(np.abs(M - np.eye(len(M)))) > tol:
+            return 'site %d: s[%d].Gamma is not left-orthonormal on the Schmidt states of bond %d (deviation %.2e; singular values %s)' % (
+                i, i, i + 1, np.max(np.abs(M - np.eye(len(M)))), np.round(sr, 5).tolist())
+        B_ = G.explicit_theta(Bs, Ss, forms, i, 1, True, eL=0, eR=2)       # Gamma s
+        nz = sl > 1e-12
+        M = np.einsum('apb,cpb->ac', B_, B_.conj())[np.ix_(nz, nz)]
+        if M.size and np.max(np.abs(M - np.eye(len(M)))) > tol:
+            return 'site %d: Gamma.s[%d] is not right-orthonormal on the Schmidt states of bond %d (deviation %.2e)' % (
+                i, i + 1, i, np.max(np.abs(M - np.eye(len(M)))))
+    return None
 
 
 def obs_dense(A, kk, o, seg):
@@ -868,6 +902,12 @@ def check_finite_case(ctx, case, r, A, key, D, SI, perm_lits, perm_meta):
                     return
             if o.get('norm_test', 0) > 1e-7 and not ref.zero_S:
                 fail('norm_test() = %.2e' % o['norm_test'], k)
+            # the stored singular values belong to the basis states of their bonds: s_i Gamma_i (left-canonical form, from the
+            # stored tensors and labels) is an isometry on the Schmidt states of non-zero weight, Gamma_i s_i+1 on all of them
+            m = canonical_alignment(Bs, Ss, forms, L)
+            if m:
+                fail('stored tensors and singular values are not a canonical form: ' + m, k,
+                     K_SUBEXP if (ref.zero_S and S.mod and any(o2['op'] == 'subspace_expansion' for o2 in ops[:k])) else None)
             vt = ref.vec / np.linalg.norm(ref.vec)
             if now_seg:
                 vt = np.moveaxis(vt, -2, 0)           # (cL, p..., cR): the outer legs are orthonormal Schmidt bases
@@ -892,6 +932,34 @@ def check_finite_case(ctx, case, r, A, key, D, SI, perm_lits, perm_meta):
 
 # ------------------------------------------------------------------------------------------------ infinite reference
 
+class RobustTM(G.TM):
+    """G.TM whose dominant left / right eigenvectors are verified: numpy.linalg.eig occasionally returns an inaccurate
+    eigenvector for the (highly non-normal, mostly nilpotent) transfer matrices of charge-conserving tensors; it is then
+    recomputed by inverse iteration at the (accurate) dominant eigenvalue"""
+
+    def __init__(self, Ms):
+        super().__init__(Ms)
+        T = self.E[0]
+        for E in self.E[1:]:
+            T = T @ E
+        with np.errstate(all='ignore'):
+            for name, mat in (('r0', T), ('l0', T.T)):
+                v = getattr(self, name)
+                if not np.isfinite(v).all() or not np.isfinite(mat).all() or abs(self.eta) < 1e-300:
+                    continue
+                if np.linalg.norm(mat @ v - self.eta * v) > 1e-10 * abs(self.eta) * np.linalg.norm(v):
+                    x = np.random.default_rng(7).normal(size=len(v)) + 0j
+                    shift = self.eta * (1 + 1e-9) + 1e-300
+                    try:
+                        for _ in range(4):
+                            x = np.linalg.solve(mat - shift * np.eye(len(v)), x)
+                            x = x / np.linalg.norm(x)
+                        if np.linalg.norm(mat @ x - self.eta * x) < 1e-9 * abs(self.eta):
+                            setattr(self, name, x)
+                    except np.linalg.LinAlgError:
+                        pass
+
+
 class IRef:
     """explicit unit-cell tensors (vL, p, vR), transformed by the documented maps; observables via the transfer matrix"""
 
@@ -905,7 +973,7 @@ class IRef:
 
     def tm(self):
         if self._tm is None:
-            self._tm = G.TM(self.Ms)
+            self._tm = RobustTM(self.Ms)
         return self._tm
 
     def S(self):
@@ -1245,7 +1313,7 @@ def check_infinite_case(ctx, case, r, A, key, D, SI, perm_lits, perm_meta):
             real_state = (not b.get('cplx')) or b['method'] == 'product'
             first_complex = not any(o2['op'] in ('apply_local_op', 'swap_sites', 'permute_sites') for o2 in ops[:step - 1])
             nonunitary = 'mat' in opx and not is_unitary(cplx_mat(opx['mat']))
-            if real_state and first_complex and nonunitary and opx.get('n') == 1:
+            if real_state and first_complex and nonunitary and opx.get('n') == 1 and np.abs(cplx_mat(opx['mat']).imag).max() > 0:
                 key_ = K_CPLX
         opts = {k_: v_ for k_, v_ in ops[step - 1].items() if k_ not in ('op', 'mat', 'other', 'ops', 'rdm_after', 'parent')} if step > 0 else {}
         ctx.fail('oracle', '%s%s on an infinite MPS (stored forms before: %s; history %s): %s' % (
@@ -1329,7 +1397,9 @@ def check_infinite_case(ctx, case, r, A, key, D, SI, perm_lits, perm_meta):
         if o['dims'] != S.dims:
             fail('site dimensions %s, expected %s' % (o['dims'], S.dims), k)
         if abs(abs(nrm) - ref.norm) > 1e-6 * max(1, ref.norm):
-            fail('psi.norm = %r, expected %r' % (nrm, ref.norm), k)
+            fail('psi.norm = %r, expected %r%s' % (nrm, ref.norm, ' (tensors of different sites were the same object before this call)'
+                                                   if prev is not None and prev.get('aliased_B') else ''), k,
+                 K_ALIAS if (prev is not None and prev.get('aliased_B') and any(o2['op'] == 'enlarge_mps_unit_cell' for o2 in ops[:k])) else None)
         segs = (ops[k - 1].get('rdm_after') if k > 0 else None) or case['want']['rdm']
         if getattr(ref, 'pending', None) is not None or getattr(ref, 'approx', False):
             prev_form, prev, prev_kk = o['form'], o, kk          # not (exactly) canonical: nothing else to compare
@@ -1527,6 +1597,9 @@ def main(ctx):
                 # ('destroys state', ZeroDivisionError in canonical_form, ArpackError 'Starting vector is zero' of the
                 # nilpotent transfer matrix of an infinite state have all been observed)
                 ctx.count(bc + '-zero-result', [spec, case['ops'][:e['step'] + 1]], nontrivial=False)
+            elif opx['op'] == 'canonical_form' and e['step'] > 0 and case['ops'][e['step'] - 1]['op'] == 'apply_local_term' and \
+                    documented_zero(case, D, SI, e['step'] - 1, v0=obs_dense(A, key + '_0', r['obs'][0], True)[0] if bc == 'segment' else None):
+                ctx.count(bc + '-zero-result', [spec, case['ops'][:e['step'] + 1]], nontrivial=False)    # (term applied with canonicalize=False)
             elif 'destroys state' in e['msg'] or e['type'] == 'ZeroDivisionError':
                 # legitimate only when the documented result is the zero vector
                 ok = False
@@ -1542,6 +1615,12 @@ def main(ctx):
             elif opx['op'] == 'apply_product_op' and e['type'] == 'TypeError' and 'has no len' in e['msg'] and not isinstance(opx.get('single', ''), str):
                 ctx.fail('oracle', 'apply_product_op(ops) with a single npc.Array (documented: "(list of) str | npc.Array") raises TypeError: ' + e['msg'][:80],
                          info, match_key=K_SINGLE)
+            elif opx['op'] == 'extract_enlarged_segment' and e['type'] == 'AttributeError' and "'NoneType' object has no attribute" in e['msg'] and \
+                    ees_one_sided(opx, {'new_first_last': list(ees_range(opx))}) and opx['parent']['bc'] == 'finite' and \
+                    ees_range(opx) == (0, len(opx['parent']['sites']) - 1):
+                ctx.fail('oracle', 'extract_enlarged_segment%s of a segment with recorded boundaries to the whole finite chain raises AttributeError: the final block '
+                         'multiplies the old boundary with the (None) boundary of the finite result' % (
+                             {k_: v_ for k_, v_ in opx.items() if k_ not in ('op', 'parent')},), info, match_key=K_EES)
             elif opx['op'] == 'add' and 'wrong qtotal' in e['msg']:
                 ctx.fail('oracle', 'add() of two finite MPS in the same charge sector raises ValueError(wrong qtotal): the total charge is '
                          'distributed differently over the tensors of the two states', info, match_key=K_ADD)
@@ -1560,7 +1639,8 @@ def main(ctx):
         ctx.count('fermi-terms' if case.get('fermi') else case.get('stream', bc), [spec, case['ops']], nontrivial=max(chis + [1]) > 1,
                   sample={'sites': spec['sites'], 'build': spec['build']['method'] if 'build' in spec else 'segment %s of %s' % (spec['segment'], spec['parent']['bc']),
                           'ops': [o['op'] for o in case['ops']], 'form0': r['obs'][0]['form'], 'chi0': r['obs'][0].get('chi')})
-        fcase = dict(case, ops=[dict({'shift': 1, 'factor': 2}, **o) if o['op'] in ('roll_mps_unit_cell', 'enlarge_mps_unit_cell') else o for o in case['ops']])
+        fcase = dict(case, ops=[{'op': 'refused'} if 'must_raise' in o else
+                                (dict({'shift': 1, 'factor': 2}, **o) if o['op'] in ('roll_mps_unit_cell', 'enlarge_mps_unit_cell') else o) for o in case['ops']])
         for lit in c07.form_cases(fcase, r, A, key, bc != 'infinite'):
             if isinstance(lit, tuple):
                 form_lits.append(lit[1])
@@ -1576,7 +1656,7 @@ def main(ctx):
         if err:
             ctx.fail('correspondence', 'model evaluation failed: ' + err[-500:], None)
         for b in bad[:3]:
-            ctx.fail('correspondence', what, meta[b])
+            ctx.fail('correspondence', what + ' | ' + str(lits[b])[:600], meta[b])
         for _ in lits:
             ctx.count(name, len(ctx._distinct), nontrivial=False)
     ctx.cov['traces_validated_against_impl'] = len(perm_lits) + len(form_lits) + n_addblocks + n_swapsign
